@@ -183,6 +183,16 @@ CONTRACTS.append(Contract(
 parse_any_scope_c = Contract(P + 'parse_any', returns=Ref('NocaseDict'), raises=PARSE_ERR, trusted=True,
                              notes='the SCOPE child, parsed by parse_scope')
 NO_VALUE_CHILD = no_child('VALUE', 'VALUE.ARRAY').replace('caller_', '')
+VALUEISH = "(tup_tree[2][{0}][0] == 'VALUE' or tup_tree[2][{0}][0] == 'VALUE.ARRAY')"
+unpack_value_qd_c = Contract(
+    P + 'unpack_value', returns=Opt(Ref('value')), raises=PARSE_ERR, trusted=True,
+    ensures=[('no-value-child-means-NULL',
+              "implies(forall(lambda k: tup_tree[2][k][0] != 'VALUE' and tup_tree[2][k][0] != 'VALUE.ARRAY', 0, "
+              "len(tup_tree[2])), result is None)"),
+             ('at-most-one-value-child',
+              "forall(lambda j: forall(lambda k: implies(" + VALUEISH.format('j') + " and " + VALUEISH.format('k') +
+              ", j == k), 0, len(tup_tree[2])), 0, len(tup_tree[2]))")],
+    notes='more than one VALUE / VALUE.ARRAY child raises CIMXMLParseError')
 qualifier_declaration_init_c = Contract(
     O + 'CIMQualifierDeclaration.__init__', trusted=True, raises=INIT_ERR,
     requires=[('name-and-type-from-the-attributes', f"name == {A}['NAME'] and type == {A}['TYPE']"),
@@ -197,13 +207,15 @@ qualifier_declaration_init_c = Contract(
 CONTRACTS.append(Contract(
     P + 'parse_qualifier_declaration', params={'self': TP, 'tup_tree': TNODE},
     requires=[ARRAYSIZE_IS_DECIMAL],
-    callees={'check_node': check_node_for('QUALIFIER.DECLARATION', ('NAME', 'TYPE')), 'unpack_value': unpack_value_null_c,
+    callees={'check_node': check_node_for('QUALIFIER.DECLARATION', ('NAME', 'TYPE'), ('SCOPE', 'VALUE', 'VALUE.ARRAY')), 'unpack_value': unpack_value_qd_c,
              'unpack_boolean': unpack_boolean_c, 'parse_any': parse_any_scope_c,
              'CIMQualifierDeclaration.__init__': qualifier_declaration_init_c},
     opaque=['CIMQualifierDeclaration'],
     loops={1: LoopSpec(target='child', types={'scopes': Opt(Ref('NocaseDict')), 'value': Opt(Ref('value'))},
                        invariant=[('no-SCOPE-child-so-far-means-no-scopes',
                                    "implies(forall(lambda k: tup_tree[2][k][0] != 'SCOPE', 0, _i), scopes is None)"),
-                                  ('no-value-child-means-NULL', f"implies({NO_VALUE_CHILD}, value is None)")])},
+                                  ('no-value-child-means-NULL', f"implies({NO_VALUE_CHILD}, value is None)"),
+                                  ('after-the-value-child-only-SCOPE-children',
+                                   "implies(value is not None, forall(lambda k: tup_tree[2][k][0] == 'SCOPE', _i, len(tup_tree[2])))")])},
     ensures=[('a-CIMQualifierDeclaration', 'isinstance(result, CIMQualifierDeclaration)')],
     raises=PARSE_ERR))
